@@ -30,9 +30,19 @@ NARROW = {
 WIDE = {"int64", "i8", "object", "O", "uint64", "u8", "longlong"}
 
 
-def _dtype_name(node):
+def _dtype_name(node, p=None, m=None):
     if isinstance(node, ast.Constant) and isinstance(node.value, str):
         return node.value
+    if p is not None and m is not None and isinstance(node, (ast.Name, ast.Attribute)) and not (isinstance(node, ast.Name) and node.id in ("int", "float", "bool")):
+        # a module constant (`INT_DTYPE = "int64"`, possibly imported from another module of the package)
+        try:
+            from sa.core import LiteralEvaluator
+
+            v = LiteralEvaluator(p, m).eval(node)
+            if isinstance(v, str):
+                return v
+        except Exception:
+            pass
     ch = attr_chain(node)
     if ch and len(ch) >= 2 and ch[0] in ("np", "numpy", "_np"):
         return ch[-1]
@@ -72,7 +82,7 @@ def r1(p, rep):
                 # .astype(D)
                 if isinstance(fn, ast.Attribute) and fn.attr == "astype" and n.args:
                     n_sites += 1
-                    d = _dtype_name(n.args[0])
+                    d = _dtype_name(n.args[0], p, m)
                     key = f"{where}:astype({d})"
                     if d in WIDE:
                         rep.ok("C02.R1", key, site, f"conversion to {d} (>= 64 bit)")
@@ -84,7 +94,7 @@ def r1(p, rep):
                 for k in n.keywords:
                     if k.arg == "dtype":
                         n_sites += 1
-                        d = _dtype_name(k.value)
+                        d = _dtype_name(k.value, p, m)
                         key = f"{where}:dtype={d}:{norm(fn)}"
                         if d in WIDE:
                             rep.ok("C02.R1", key, site, f"dtype={d}")
@@ -100,7 +110,7 @@ def r1(p, rep):
                     n_sites += 1
                     dt = next((k.value for k in n.keywords if k.arg == "dtype"), None)
                     key = f"{where}:np.{ch[1]}"
-                    if dt is not None and _dtype_name(dt) in WIDE:
+                    if dt is not None and _dtype_name(dt, p, m) in WIDE:
                         rep.ok("C02.R1", key, site, f"np.{ch[1]} with dtype={_dtype_name(dt)}")
                     else:
                         rep.violation("C02.R1", key, site, f"`{norm(n)[:70]}`: np.{ch[1]} over a Python list is float 1.0/0.0 for an empty list and a fixed-width integer otherwise; use math.prod / sum for exact lengths")
@@ -392,15 +402,24 @@ def r8(p, rep):
                 # handed in by the caller(s)
                 for h in common.with_helpers(p, f0):
                     for c in walk_no_nested(h.node):
-                        if isinstance(c, ast.Call) and resolve_callee(p, c, h.module) == ("func", g):
-                            i_ = g.params.index(e.id)
-                            a = c.args[i_] if i_ < len(c.args) else next((k.value for k in c.keywords if k.arg == e.id), None)
+                        rc = resolve_callee(p, c, h.module) if isinstance(c, ast.Call) else None
+                        if rc is not None and (rc == ("func", g) or (g.name == "__init__" and g.cls is not None and rc == ("class", g.cls))):
+                            i_ = g.params.index(e.id) - (1 if rc[0] == "class" else 0)
+                            a = c.args[i_] if 0 <= i_ < len(c.args) else next((k.value for k in c.keywords if k.arg == e.id), None)
                             chain(h, a, depth + 1)
                 return
             for a in walk_no_nested(g.node):
                 if isinstance(a, ast.Assign) and any(isinstance(t, ast.Name) and t.id == e.id for t in a.targets) and id(a) not in seen:
                     seen.add(id(a))
                     chain(g, a.value, depth + 1)
+            return
+        if isinstance(e, ast.Attribute) and isinstance(e.value, ast.Name) and g.cls is not None and g.params and e.value.id == g.params[0]:
+            # a field of the helper object: where the class binds it
+            for mth in g.cls.methods.values():
+                for a in walk_no_nested(mth.node):
+                    if isinstance(a, ast.Assign) and any(isinstance(t, ast.Attribute) and t.attr == e.attr and isinstance(t.value, ast.Name) and t.value.id == mth.params[0] for t in a.targets) and id(a) not in seen:
+                        seen.add(id(a))
+                        chain(mth, a.value, depth + 1)
             return
         if isinstance(e, (ast.ListComp, ast.GeneratorExp, ast.SetComp)):
             for gen in e.generators:
@@ -418,7 +437,7 @@ def r8(p, rep):
     for g, c in solves:
         n += 1
         a0 = c.args[0] if c.args else None
-        ok = isinstance(a0, (ast.Name, ast.ListComp))
+        ok = isinstance(a0, (ast.Name, ast.ListComp, ast.Attribute))
         rep.add("C02.R8", f"{g.qualname}:sympy.solve:arg0", f"{g.module.rel}:{c.lineno}", ok, f"sympy.solve receives `{norm(a0)[:40] if a0 is not None else None}`" if ok else f"sympy.solve receives `{norm(a0) if a0 is not None else None}`, which is not a traceable equation list")
         chain(g, a0)
     # explicit appends into an equation list are only skipped for identical sides
@@ -440,6 +459,31 @@ def r9(p, rep):
         n += _r9_in(p, rep, f)
     if n == 0:
         raise AnalysisError("unrecognised idiom: no element is taken from sympy's solution set in util.solver.solve")
+
+
+def _default_is_rejected(f, cfg, call):
+    st = next((x for x in walk_no_nested(f.node) if isinstance(x, ast.Assign) and x.value is call and len(x.targets) == 1 and isinstance(x.targets[0], ast.Name)), None)
+    if st is None:
+        return False
+    name = st.targets[0].id
+    if sum(1 for x in walk_no_nested(f.node) if isinstance(x, ast.Name) and x.id == name and isinstance(x.ctx, ast.Store)) != 1:
+        return False
+    uses = 0
+    for x in walk_no_nested(f.node):
+        if not (isinstance(x, ast.Name) and x.id == name and isinstance(x.ctx, ast.Load)):
+            continue
+        par = getattr(x, "_parent", None)
+        if isinstance(par, ast.Compare) and len(par.ops) == 1 and isinstance(par.ops[0], (ast.Is, ast.IsNot)) and isinstance(par.comparators[0], ast.Constant) and par.comparators[0].value is None:
+            continue
+        uses += 1
+        known = False
+        for t, pol in cfg.guards_of_ast(x):
+            if isinstance(t, ast.Compare) and len(t.ops) == 1 and isinstance(t.left, ast.Name) and t.left.id == name and isinstance(t.comparators[0], ast.Constant) and t.comparators[0].value is None:
+                if (isinstance(t.ops[0], ast.Is) and pol is False) or (isinstance(t.ops[0], ast.IsNot) and pol is True):
+                    known = True
+        if not known:
+            return False
+    return uses > 0
 
 
 def _r9_in(p, rep, f):
@@ -490,6 +534,10 @@ def _r9_in(p, rep, f):
         facts = [(t, pol) for t, pol in cfg.guards_of_ast(node) if t is None or sel.id not in {x.id for x in ast.walk(t) if isinstance(x, ast.Name)} or (cfg.node_for(t) is not None and rd.defs_reaching(cfg.node_for(t), sel.id) == here)]
         lo, hi = common.len_bounds(facts, sel.id)
         ok = (lo, hi) == (1, 1)
+        if not ok and (lo, hi) == (0, 1) and isinstance(node, ast.Call) and len(node.args) == 2 and isinstance(node.args[1], ast.Constant) and node.args[1].value is None:
+            # `x = next(iter(S), None)`: the empty set yields the default; fine when x is only used where it is
+            # known not to be the default (the `x is None` arm raises)
+            ok = _default_is_rejected(f, cfg, node)
         rep.add("C02.R9", f"{f.qualname}:take-one({sel.id})", f"{f.module.rel}:{node.lineno}", ok, f"`{norm(node)}` is reached only with len({sel.id}) == 1" if ok else f"`{norm(node)}` is reached with len({sel.id}) in [{lo}, {hi if hi is not None else 'inf'}]: with several solutions an arbitrary one (set order) is reported as THE solution instead of raising SolveExceptionTooManySolutions - ambiguous sizes are silently resolved")
     return n
 
